@@ -168,8 +168,9 @@ def mk_shared_case(i, rng):
     allotment, and in two statements; every text style. Account names are disjoint between statements."""
     p = rng.choice([Fraction(1, 2), Fraction(1, 4), Fraction(1, 3), Fraction(3, 10), Fraction(1, 8), Fraction(2, 5), Fraction(0), Fraction(1, 1000)])
     style = rng.randrange(3)
-    vars_ = {"p": portion_text(p, style)}
-    stmts, parts, texts, decls = [], [], [], ["portion $p"]
+    vn = rng.choice(["p", "p", "remaining", "kept", "max", "portion"])        # a variable may be called like a keyword
+    vars_ = {vn: portion_text(p, style)}
+    stmts, parts, texts, decls = [], [], [], ["portion $" + vn]
     for k in range(rng.randrange(1, 4)):
         n = rng.choice([rng.randrange(0, 40), 11, 10, 7, 2 ** 64 + rng.randrange(0, 50)])
         uses = 2 if 2 * p <= 1 and rng.random() < 0.6 else 1
@@ -183,9 +184,9 @@ def mk_shared_case(i, rng):
             tail = ["remaining"]
         if rng.random() < 0.5:
             qs.reverse()
-            ptexts = tail + ["$p"] * uses
+            ptexts = tail + ["$" + vn] * uses
         else:
-            ptexts = ["$p"] * uses + tail
+            ptexts = ["$" + vn] * uses + tail
         names = ["s%dp%d" % (k, j) for j in range(len(qs))]
         side = rng.choice(["dst", "src"])
         amount = "[COIN %d]" % n
